@@ -172,7 +172,7 @@ class Exec:
         for c in extra:
             s.add(c)
         t0 = time.time()
-        r = s.check()
+        r = timed_check(s, timeout_ms)
         self.solver_time += time.time() - t0
         return r
 
@@ -730,6 +730,9 @@ class Exec:
         if kind == "for":
             frame.locals[idx_name] = 0
         env_extra = {}
+        for clause in spec.get("lemmas_init", []):
+            self.used_intrinsics.add(f"definitional axiom instance: {clause}")
+            self.assume(self.spec_bool(clause, frame, env_extra))
         for k, clause in enumerate(spec.get("inv", [])):
             self.oblige(f"inv.init.{ordn}.{k}", self.spec_bool(clause, frame, env_extra), clause)
         # havoc
@@ -741,6 +744,14 @@ class Exec:
             self.assume(i.t <= z3.Length(seq.t))
         for clause in spec.get("inv", []):
             self.assume(self.spec_bool(clause, frame, env_extra))
+        # ghost copies of the loop-carried locals at the head of the iteration: pre_<name>
+        for name, v in list(frame.locals.items()):
+            if not name.startswith("pre_") and not isinstance(v, (HObj, HDict, HList, FuncRef)):
+                env_extra["pre_" + name] = v.acc if isinstance(v, HJoin) else v
+        # definitional axioms instantiated at the loop head (trusted definitions, listed in evidence)
+        for clause in spec.get("lemmas_head", []):
+            self.used_intrinsics.add(f"definitional axiom instance: {clause}")
+            self.assume(self.spec_bool(clause, frame, env_extra))
         dec0 = None
         if spec.get("dec"):
             dec0 = self.spec_eval(spec["dec"], frame, env_extra)
@@ -750,6 +761,11 @@ class Exec:
         else:
             enter = self.decide(frame.locals[idx_name].t < z3.Length(seq.t))
         if not enter:
+            for clause in spec.get("lemmas_exit", []):
+                self.used_intrinsics.add(f"definitional axiom instance: {clause}")
+                self.assume(self.spec_bool(clause, frame, env_extra))
+            for k, clause in enumerate(spec.get("hints_exit", [])):
+                self.oblige(f"hint.exit.{ordn}.{k}", self.spec_bool(clause, frame, env_extra), clause)
             self.exec_block(st.orelse, frame)
             return
         if kind == "for":
@@ -762,6 +778,12 @@ class Exec:
             pass
         if kind == "for":
             frame.locals[idx_name] = SInt(frame.locals[idx_name].t + 1)
+        for k, clause in enumerate(spec.get("hints_end", [])):
+            # hints are proved first, then available (never assumed unproved)
+            self.oblige(f"hint.{ordn}.{k}", self.spec_bool(clause, frame, env_extra), clause)
+        for clause in spec.get("lemmas_end", []):
+            self.used_intrinsics.add(f"definitional axiom instance: {clause}")
+            self.assume(self.spec_bool(clause, frame, env_extra))
         for k, clause in enumerate(spec.get("inv", [])):
             self.oblige(f"inv.keep.{ordn}.{k}", self.spec_bool(clause, frame, env_extra), clause)
         if dec0 is not None:
